@@ -452,7 +452,7 @@ class C20(Scenario):
         }
         return viols, {"faults": faults, "probes": probes, "state": state, "nontrivial": nontrivial}
 
-    def simplify(self, plan, phase="post"):
+    def simplify(self, plan, phase="post", target=None):
         if phase == "pre":
             return
         # drop handlers from defalg units one at a time; un-fault faulted units
